@@ -713,6 +713,10 @@ pub struct Runner<'a> {
     pub max_per_class: usize,
     /// wall-clock limit of ONE shrink (the large documents of the interface-hierarchy stream cost ≈ 0.1 s per step)
     pub shrink_seconds: u64,
+    /// wall-clock limit of ALL shrinks of the run together; once it is used up (at least one failure has then been shrunk
+    /// and reported) further failures are counted, not shrunk
+    pub shrink_total_seconds: u64,
+    pub shrink_spent: std::time::Duration,
 }
 
 impl<'a> Runner<'a> {
@@ -742,9 +746,11 @@ impl<'a> Runner<'a> {
         // shrink, then compute the signature from the minimal document
         let class = format!("{}:{}:{}", f.direction, f.kind, doc_features(&p.doc_model, "exclude"));
         let seen = *self.per_class.get(&class).unwrap_or(&0);
-        let (min_doc, fmin) = if self.shrinks_done < self.max_shrinks && seen < self.max_per_class {
+        let time_left = self.shrinks_done == 0 || self.shrink_spent.as_secs() < self.shrink_total_seconds;
+        let (min_doc, fmin) = if self.shrinks_done < self.max_shrinks && seen < self.max_per_class && time_left {
             *self.per_class.entry(class).or_insert(0) += 1;
             self.shrinks_done += 1;
+            let t_shrink = std::time::Instant::now();
             let dir = f.direction.clone();
             let budget = self.shrink_budget;
             let case2 = case.clone();
@@ -762,9 +768,14 @@ impl<'a> Runner<'a> {
             };
             // re-evaluate on the minimum so that kind/what describe the minimal case
             let fm = self.o_fails(case, &m, &f.direction).unwrap_or(last);
+            self.shrink_spent += t_shrink.elapsed();
             (m, fm)
         } else {
-            self.rep.count("o-failures-not-shrunk(same direction, value kind and feature set as failures already shrunk; not reported)");
+            self.rep.count(if time_left {
+                "o-failures-not-shrunk(same direction, value kind and feature set as failures already shrunk; not reported)"
+            } else {
+                "o-failures-not-shrunk(time budget of the shrinker used up by failures already reported; not reported)"
+            });
             return;
         };
         let mut sig = format!("{}:{}:{}", fmin.direction, doc_features(&min_doc, &fmin.direction), fmin.kind);
@@ -1475,7 +1486,8 @@ pub fn main_for(property: &str, which: &'static str) {
         let n_drivers: usize = std::env::var("NV_DRIVERS").ok().and_then(|s| s.parse().ok()).unwrap_or(3).clamp(1, 8);
         let pool: Vec<Driver> = if args.replay.is_some() { vec![] } else { (1..n_drivers).map(|_| Driver::spawn(&args.driver)).collect() };
         let mut r = Runner { rep: &mut rep, drv: &mut drv, pool, which, cap, shrink_budget: 1200, max_shrinks: if args.thorough() || search { 400 } else { 24 }, shrinks_done: 0,
-            per_class: Default::default(), max_per_class: if args.thorough() || search { 4 } else { 1 }, shrink_seconds: if args.thorough() || search { 120 } else { 20 } };
+            per_class: Default::default(), max_per_class: if args.thorough() || search { 4 } else { 1 }, shrink_seconds: if args.thorough() || search { 120 } else { 15 },
+            shrink_total_seconds: if args.thorough() || search { 1200 } else { 40 }, shrink_spent: Default::default() };
         if let Some(path) = &args.replay {
             let v: Value = serde_json::from_str(&std::fs::read_to_string(path).expect("replay file")).expect("replay json");
             let case = Case::from_json(&v["case"]);
